@@ -408,6 +408,99 @@ Lemma results_need_probing : forall c s ok fatal, probing (st s) = false ->
   health_step c s (RR ok fatal) = s /\ health_step c s (LR ok fatal) = s.
 Proof. intros c s ok fatal H. unfold health_step, deliverable. rewrite H. cbn. auto. Qed.
 
+(* --- the observation the model itself would produce satisfies the monitor -------------------- *)
+Fixpoint model_obs (c : cfg) (s : hst) (ops : list hop) : list hop * list hobs :=
+  match ops with
+  | [] => ([], [])
+  | o :: r =>
+      if deliverable c s o then
+        let s' := h_apply c s o in
+        let '(os, bs) := model_obs c s' r in (o :: os, obs_of s' :: bs)
+      else model_obs c s r
+  end.
+
+Definition model_case (c : cfg) (ops : list hop) : hcase :=
+  let '(os, bs) := model_obs c (h_init c) ops in mkHC c (obs_of (h_init c)) os bs.
+
+Definition f11b_free (c : cfg) : bool :=
+  match c_policy c with PolOnFailure => negb (c_stopcode c =? 0) | _ => true end.
+
+Lemma ltb_S n : (n <? S n)%nat = true.  Proof. apply Nat.ltb_lt. lia. Qed.
+Lemma eqb_S n : (n =? S n)%nat = false.  Proof. apply Nat.eqb_neq. lia. Qed.
+Lemma eqb_S' n : (S n =? n)%nat = false.  Proof. apply Nat.eqb_neq. lia. Qed.
+
+Ltac fin := cbn -[Nat.ltb Nat.eqb]; rewrite ?ltb_S, ?eqb_S, ?eqb_S', ?Nat.eqb_refl, ?Nat.ltb_irrefl; cbn -[Nat.ltb Nat.eqb];
+            rewrite ?ltb_S, ?eqb_S, ?eqb_S', ?Nat.eqb_refl, ?Nat.ltb_irrefl; cbn -[Nat.ltb Nat.eqb]; repeat split; auto;
+            try match goal with |- (if ?x then _ else _) = _ => destruct x; reflexivity end.
+
+Lemma nd_clauses : forall c s o, c_daemon c = false -> c_fixed c = true -> f11b_free c = true ->
+  nd_inv s -> deliverable c s o = true ->
+  let a := obs_of s in let b := obs_of (h_apply c s o) in
+  cl_ready a o b = true /\ cl_notready o b = true /\ cl_forget a b = true /\
+  cl_fatal c a o b = true /\ cl_live c a o b = true.
+Proof.
+  intros c s o Hd Hf Hb I D a b. subst a b.
+  destruct I as [(H1 & H2 & H3 & H4)|(H1 & H2)].
+  2:{ exfalso. revert D. unfold deliverable. destruct o; rewrite ?H1, ?H2; cbn; discriminate. }
+  destruct s as [st0 hl0 la si re al to ca sf], c as [pol mx dm rd lv sc fx]; cbn in *; subst.
+  unfold f11b_free in Hb; cbn in Hb. clear D.
+  destruct o as [ok fatal|ok fatal|code|];
+  unfold cl_ready, cl_notready, cl_forget, cl_fatal, cl_live, obs_of, h_apply, do_stop, cmd_exited, after_exit,
+         restartable, budget, start_status; cbn -[Nat.ltb Nat.eqb].
+  - destruct fatal, ok, pol, hl0; cbn -[Nat.ltb Nat.eqb]; try destruct (sc =? 0) eqn:?; cbn -[Nat.ltb Nat.eqb] in *; try discriminate;
+      try destruct ((mx =? 0) || (re <? mx)) eqn:?; fin.
+  - destruct (fatal && false) eqn:E; [rewrite andb_false_r in E; discriminate|].
+    destruct hl0, fatal; fin.
+  - destruct pol, hl0; cbn -[Nat.ltb Nat.eqb]; try destruct (code =? 0); cbn -[Nat.ltb Nat.eqb]; try destruct ((mx =? 0) || (re <? mx)) eqn:?; fin.
+  - destruct hl0; fin.
+Qed.
+
+Lemma nd_inv_apply : forall c s o, c_daemon c = false -> c_fixed c = true -> nd_inv s ->
+  deliverable c s o = true -> nd_inv (h_apply c s o).
+Proof.
+  intros c s o Hd Hf I D. pose proof (nd_inv_step c s o Hd Hf I) as H. unfold health_step in H.
+  rewrite D in H. exact H.
+Qed.
+
+Lemma mon_h_model_nd : forall c, c_daemon c = false -> c_fixed c = true -> f11b_free c = true ->
+  forall ops s, nd_inv s ->
+  mon_h c (obs_of s) (fst (model_obs c s ops)) (snd (model_obs c s ops)) = 0%nat.
+Proof.
+  intros c Hd Hf Hb. induction ops as [|o r IH]; intros s I; [reflexivity|].
+  cbn [model_obs]. destruct (deliverable c s o) eqn:D; [|apply IH; exact I].
+  specialize (IH (h_apply c s o) (nd_inv_apply c s o Hd Hf I D)).
+  destruct (nd_clauses c s o Hd Hf Hb I D) as (C1 & C2 & C3 & C4 & C5).
+  destruct (model_obs c (h_apply c s o) r) as [os bs]. cbn [fst snd mon_h] in *.
+  rewrite C1, C2, C3, C4, C5. cbn. exact IH.
+Qed.
+
+(* for every event list: the trace the (repaired) model produces for a non-daemon process passes the
+   monitor that the check applies to the implementation's traces (F11b excluded by f11b_free) *)
+Lemma holds_h_model_nd : forall c ops, c_daemon c = false -> c_fixed c = true -> f11b_free c = true ->
+  holds_h (model_case c ops) = true.
+Proof.
+  intros c ops Hd Hf Hb. unfold holds_h, clause_h, model_case.
+  pose proof (mon_h_model_nd c Hd Hf Hb ops (h_init c)) as H.
+  destruct (model_obs c (h_init c) ops) as [os bs]. cbn [hc_cfg hc_obs0 hc_ops hc_obs fst snd] in *.
+  rewrite H; [reflexivity|]. left. unfold h_init, start_status. rewrite Hd. cbn. auto.
+Qed.
+
+(* and it agrees with itself under the correspondence checker (sanity of model_ok_h) *)
+Lemma hobs_eqb_refl : forall o, hobs_eqb o o = true.
+Proof.
+  intros [s h l g r]. unfold hobs_eqb; cbn. rewrite !Nat.eqb_refl, Z.eqb_refl.
+  destruct s, h; reflexivity.
+Qed.
+
+Lemma model_trace_h_model : forall c ops s,
+  model_trace_h c s (fst (model_obs c s ops)) (snd (model_obs c s ops)) = true.
+Proof.
+  intros c. induction ops as [|o r IH]; intros s; [reflexivity|].
+  cbn [model_obs]. destruct (deliverable c s o) eqn:D; [|apply IH].
+  specialize (IH (h_apply c s o)). destruct (model_obs c (h_apply c s o) r) as [os bs].
+  cbn [fst snd model_trace_h] in *. rewrite D, hobs_eqb_refl, IH. reflexivity.
+Qed.
+
 (* --- findings, as theorems about the model ---------------------------------------------------- *)
 (* F11 (unrepaired code): policy always, fatal readiness: not relaunched, Restarts incremented *)
 Lemma f11_unfixed_no_relaunch :
